@@ -11,6 +11,8 @@ CONSTANTS
   MaxClient = 1
   MaxCrash = 0
   MaxHalf = 1
+  MaxSnap = 0
+  SnapSize = 1
   AsyncKinds = {}
   MaxNet = 0
   W = {}
